@@ -48,6 +48,8 @@ def is_nameplate_key(sc, t, before):
 
 def run(ctx):
     model = ctx.model
+    from .. import roles as _roles
+    R = _roles.get(model)
     sc = scopemod.get(model)
     ctx.rule("R07.writers", "writes to nameplate_sides / deletes of nameplates are keyed "
              "by an app-scoped nameplate id (claimed-flag update: id AND side)")
@@ -114,8 +116,8 @@ def run(ctx):
                 elif eq is not None and set(eq) == {"mailbox_id"} and \
                         is_own_mailbox_id(eq["mailbox_id"]):
                     ok = True
-                    ctx.ob("R07.close", construct_of(e), e["func"] == "Mailbox.close", e,
-                           "" if e["func"] == "Mailbox.close" else
+                    ctx.ob("R07.close", construct_of(e), e["func"] == R.close_op, e,
+                           "" if e["func"] == R.close_op else
                            "nameplates are deleted by mailbox id outside Mailbox.close")
                 else:
                     why = "nameplates are deleted by (%s)" % (
@@ -125,7 +127,7 @@ def run(ctx):
                 nw += 1
                 ctx.ob("R07.writers", construct_of(e), False, e,
                        "a stored nameplate row is rewritten")
-    ctx.require("R07.writers", nw, 6, "writes to nameplate_sides / nameplates deletes")
+    ctx.require("R07.writers", nw, 4, "writes to nameplate_sides / nameplates deletes")
     # R07.guard
     h_rel = handler_for(model, "release")
     ng = 0
